@@ -65,6 +65,8 @@ class STL(object):
             return getattr(self, "vec_" + method, None)
         if self.is_string(cls):
             return getattr(self, "str_" + method, None)
+        if self.is_map(cls):
+            return getattr(self, "map_" + method, None)
         return None
 
     def operator_handler(self, objt, opname):
@@ -72,7 +74,36 @@ class STL(object):
             return self.vec_index
         if self.is_string(objt) and opname in ("operator==", "operator!="):
             return self.str_eq
+        if "_Rb_tree_iterator" in objt or "_Rb_tree_const_iterator" in objt or "::iterator" in objt:
+            if opname == "operator==":
+                return lambda ex, st, n, name, an: self.iter_eq(ex, st, n, name, an, False)
+            if opname == "operator!=":
+                return lambda ex, st, n, name, an: self.iter_eq(ex, st, n, name, an, True)
+            if opname in ("operator->", "operator*"):
+                return self.iter_arrow
+            if opname == "operator=":
+                return self.iter_assign
         return None
+
+    def iter_assign(self, ex, st, n, name, arg_nodes):
+        out = []
+        rhs = arg_nodes[1]
+        vals = [(s1, ex.load(s1, l, "P")) for s1, l in ex.lv(rhs, st)] if rhs.get("valueCategory") == "lvalue" and rhs.get("kind") == "DeclRefExpr" else ex.ev(rhs, st)
+        for s1, v in vals:
+            for s2, l in ex.lv(arg_nodes[0], s1):
+                ex.store(s2, l, v, "P")
+                out.append((s2, v))
+        return out
+
+    def iter_arrow(self, ex, st, n, name, arg_nodes):
+        out = []
+        if arg_nodes[0].get("valueCategory") == "lvalue":
+            vals = [(s1, ex.load(s1, l, "P")) for s1, l in ex.lv(arg_nodes[0], st)]
+        else:
+            vals = ex.ev(arg_nodes[0], st)
+        for s1, it in vals:
+            out.append((s1, tm.app("mnode", (it,), "P")))
+        return out
 
     # ---------------- vector
     def vec_size(self, ex, st, n, name, recv, args):
@@ -116,6 +147,86 @@ class STL(object):
         if ex.ctx.log_stores:
             st.events.append(self.sx.Event("vector.clear", recv, [], tm.num(0, "I"), n))
         return [(st, tm.num(0, "I"))]
+
+    def vec_resize(self, ex, st, n, name, recv, args):
+        new = ex.coerce(args[0], "I")
+        old = self.vsize(ex, st, recv)
+        key = ("f", "#vsize", "I")
+        st.heap[key] = tm.store(ex.heap_arr(st, key), (recv,), new)
+        if new.op == "+" and new.args[0] is old and tm.isnum(new.args[1]) and new.args[1].args[0] == 1:
+            # one default-constructed element appended: if it is itself a vector it is empty
+            # (element identity is abstract: growth keeps the addresses data + i of the existing elements)
+            ea = self._elem_addr(ex, st, recv, old, "")
+            st.heap[key] = tm.store(st.heap[key], (ea,), tm.num(0, "I"))
+        # growth default-constructs the new elements; the (possibly reallocated) data pointer is arbitrary
+        st.events.append(self.sx.Event("vector.resize", recv, [old, new], tm.num(0, "I"), n))
+        return [(st, tm.num(0, "I"))]
+
+    def vec_reserve(self, ex, st, n, name, recv, args):
+        return [(st, tm.num(0, "I"))]
+
+    def vec_push_back(self, ex, st, n, name, recv, args):
+        old = self.vsize(ex, st, recv)
+        key = ("f", "#vsize", "I")
+        st.heap[key] = tm.store(ex.heap_arr(st, key), (recv,), tm.add(old, tm.num(1, "I")))
+        st.events.append(self.sx.Event("vector.push_back", recv, [old] + list(args), tm.num(0, "I"), n))
+        return [(st, tm.num(0, "I"))]
+
+    # ---------------- map<K,V> with scalar V: has / val / size components keyed by (map address, key)
+    def is_map_scalar(self, cls):
+        return self.is_map(cls)
+
+    def mkey(self, ex, k):
+        return k if k.sort == "S" or k.sort == "I" else ex.coerce(k, "S")
+
+    def mhas(self, ex, st, a, k):
+        return tm.select(ex.heap_arr(st, ("m2", "#mhas", "B", k.sort)), a, k)
+
+    def map_size(self, ex, st, n, name, recv, args):
+        return [(st, tm.select(ex.heap_arr(st, ("f", "#msize", "I")), recv))]
+
+    def map_find(self, ex, st, n, name, recv, args):
+        k = self.mkey(ex, args[0])
+        return [(st, tm.app("miter", (recv, k), "P"))]
+
+    def map_end(self, ex, st, n, name, recv, args):
+        return [(st, tm.app("mend", (recv,), "P"))]
+
+    def map_clear(self, ex, st, n, name, recv, args):
+        st.events.append(self.sx.Event("map.clear", recv, [], tm.num(0, "I"), n))
+        key = ("f", "#msize", "I")
+        st.heap[key] = tm.store(ex.heap_arr(st, key), (recv,), tm.num(0, "I"))
+        return [(st, tm.num(0, "I"))]
+
+    def map_insert(self, ex, st, n, name, recv, args):
+        p = args[0]
+        if not (p.op == "app" and p.args[0] == "pair"):
+            raise Undecided("map::insert of a non-pair argument")
+        k, v = self.mkey(ex, p.args[1]), p.args[2]
+        has = self.mhas(ex, st, recv, k)
+        # insert does nothing when the key is present; contracts using insert establish absence first
+        st.events.append(self.sx.Event("map.insert", recv, [k, v, has], tm.num(0, "I"), n))
+        hk = ("m2", "#mhas", "B", k.sort)
+        st.heap[hk] = tm.store(ex.heap_arr(st, hk), (recv, k), tm.TRUE)
+        vk = ("m2", "#mval", v.sort, k.sort)
+        old = tm.select(ex.heap_arr(st, vk), recv, k)
+        st.heap[vk] = tm.store(ex.heap_arr(st, vk), (recv, k), tm.ite(has, old, v))
+        sk = ("f", "#msize", "I")
+        osz = tm.select(ex.heap_arr(st, sk), recv)
+        st.heap[sk] = tm.store(ex.heap_arr(st, sk), (recv,), tm.ite(has, osz, tm.add(osz, tm.num(1, "I"))))
+        return [(st, tm.num(0, "I"))]
+
+    def iter_eq(self, ex, st, n, name, arg_nodes, negate=False):
+        out = []
+        for s1, a in ex.ev(arg_nodes[0], st) if arg_nodes[0].get("valueCategory") != "lvalue" else [(s, ex.load(s, l, "P")) for s, l in ex.lv(arg_nodes[0], st)]:
+            for s2, b in ex.ev(arg_nodes[1], s1) if arg_nodes[1].get("valueCategory") != "lvalue" else [(s, ex.load(s, l, "P")) for s, l in ex.lv(arg_nodes[1], s1)]:
+                it, en = (a, b) if (b.op == "app" and b.args[0] == "mend") else (b, a)
+                if it.op == "app" and it.args[0] == "miter" and en.op == "app" and en.args[0] == "mend":
+                    r = tm.not_(self.mhas(ex, s2, it.args[1], it.args[2]))
+                else:
+                    r = tm.eq(a, b)
+                out.append((s2, tm.not_(r) if negate else r))
+        return out
 
     # ---------------- string (opaque values)
     def str_c_str(self, ex, st, n, name, recv, args):
